@@ -1,5 +1,5 @@
 (* C08 — auxiliary lemmas: Vec / BTreeSet / BTreeMap helpers of the model, quantities of values, the input map. *)
-From CSL Require Import Base.Prelude Num.Value Num.ValueProofs CoinSel.CoinSel CoinSel.CoinSelSpec.
+From CSL Require Import Base.Prelude Num.Value Num.ValueProofs Num.ValueNorm Num.ValueNormProofs CoinSel.CoinSel CoinSel.CoinSelSpec.
 From Coq Require Import Permutation Sorting.Sorted.
 Local Open Scope N_scope.
 
@@ -255,3 +255,26 @@ Qed.
 
 Lemma imap_of_list_perm l : NoDup (ids l) -> Permutation (imap_of_list l) l.
 Proof. intros H. apply (insert_all_perm l []). exact H. Qed.
+
+(* ------------------------------------------------------------------------------------------- *)
+(* push_input's normalisation: same outpoint, same quantities, well formed *)
+
+Lemma ids_norm l : ids (map norm_utxo l) = ids l.
+Proof. unfold ids. rewrite map_map. reflexivity. Qed.
+
+Lemma Q_norm sel v : value_wf v -> Q sel (value_without_empty_entries v) = Q sel v.
+Proof.
+  intros W. destruct (value_without_empty_entries_sem v W) as [C Hq]. destruct sel; cbn [Q]; auto.
+Qed.
+
+Lemma sumQ_norm sel l : Forall (fun u => value_wf (u_val u)) l ->
+  sumQ sel (map u_val (map norm_utxo l)) = sumQ sel (map u_val l).
+Proof.
+  induction 1 as [|u l W _ IH]; [reflexivity|]. unfold sumQ in *. cbn [map fold_right norm_utxo u_val].
+  rewrite IH. rewrite (Q_norm sel _ W). reflexivity.
+Qed.
+
+Lemma norm_wf l : Forall (fun u => value_wf (u_val u)) l -> Forall (fun u => value_wf (u_val u)) (map norm_utxo l).
+Proof.
+  induction 1; cbn [map]; constructor; auto. cbn [norm_utxo u_val]. apply value_without_empty_entries_wf. assumption.
+Qed.
